@@ -306,6 +306,24 @@ def coq_prove(ctx, prop, targets, extra_obligations=()):
         res["failed"].append("forbidden-vernacular:" + "; ".join(hits[:5]))
     else:
         res["discharged"] += 1
+    if ctx.thorough() and not res["failed"]:
+        # independent re-check of the compiled closure (thorough tier only: ~40 s and more)
+        t2 = time.time()
+        rc2, out2 = sh(["coqchk", "-o", "-silent"] + COQ_FLAGS + ["TV.Properties.%s" % prop], 1800, cwd=COQ)
+        res["obligations"] += 1
+        m = re.search(r"\* Axioms:(.*?)\n\s*\n\* Constants/Inductives relying on type-in-type:(.*?)\n\s*\n\* Constants/Inductives relying on unsafe \(co\)fixpoints:(.*?)\n\s*\n\* Inductives whose positivity is assumed:(.*?)\n", out2, re.S)
+        if rc2 == 0 and m:
+            ax = [a.strip() for a in m.group(1).strip().split("\n") if a.strip() and a.strip() != "<none>"]
+            bad = [a for a in ax if a.split(".")[-1] not in AXIOM_ALLOW and a not in AXIOM_ALLOW]
+            others = [g.strip() for g in m.groups()[1:] if g.strip() != "<none>"]
+            res["coqchk"] = {"axioms": ax, "unsafe": others, "wall_s": round(time.time() - t2, 1)}
+            if bad or others:
+                res["failed"].append("coqchk:" + ",".join(bad + others)[:300])
+            else:
+                res["discharged"] += 1
+        else:
+            res["failed"].append("coqchk:rc=%d %s" % (rc2, last_error(out2)))
+        ctx.log("coqchk rc=%d (%.1fs)" % (rc2, time.time() - t2))
     for name, ok in extra_obligations:
         res["obligations"] += 1
         if ok:
